@@ -5,6 +5,7 @@ import vlib, sessions
 from vlib import hexs
 from props import sess_common as sc
 from props import volfile_corr
+from props import csess_corr
 
 PROP_FILES = ["Props/C04.v"]
 
@@ -43,6 +44,10 @@ def run(rep, tier, seed):
     # file level (C04_file_decodes_*): the image-level machine next to the library, and Spec/Abs.v decoding the DEVICE bytes of
     # one file after every history (chain walk, content, extents) - props/volfile_corr.py
     volfile_corr.stream(rep, tier, vlib.Rng(seed * 104729 + 11), "C04")
+    # the composition through the directory entry (C04_session_*): format ; create_file ; calls under a scripted clock ; flush /
+    # drop ; unmount - the extracted Model/VolSession.v next to the library, WHOLE device image compared after every call, and
+    # Spec/Abs + Spec/Wf on the library's final dump against the byte array the session observed - props/csess_corr.py
+    csess_corr.stream(rep, tier, vlib.Rng(seed * 104729 + 29), "C04")
     confs = sessions.configs(tier)
     n = 60 if tier == "quick" else 1000
     scripts = []
